@@ -365,7 +365,10 @@ impl MqttShared {
     ) -> Result<(), error::EncodeError> {
         self.check_streaming()?;
         self.enable_streaming(&pkt, payload.as_ref());
-        self.io.encode(Encoded::Publish(pkt, payload), &self.codec)
+        self.io.encode(Encoded::Publish(pkt, payload), &self.codec).inspect_err(|_| {
+            // nothing was written, no payload chunks are expected
+            self.streaming_remaining.set(None);
+        })
     }
 
     pub(super) fn encode_publish_payload(
@@ -511,6 +514,7 @@ impl MqttShared {
 
         let mut queues = self.queues.borrow_mut();
         if queues.inflight_ids.contains(&id) {
+            self.streaming_remaining.set(None);
             Err(SendPacketError::PacketIdInUse(id))
         } else {
             match self.io.encode(Encoded::Publish(pkt, payload), &self.codec) {
@@ -520,7 +524,10 @@ impl MqttShared {
                     queues.inflight_ids.insert(id);
                     Ok(rx)
                 }
-                Err(e) => Err(SendPacketError::Encode(e)),
+                Err(e) => {
+                    self.streaming_remaining.set(None);
+                    Err(SendPacketError::Encode(e))
+                }
             }
         }
     }
@@ -537,6 +544,7 @@ impl MqttShared {
 
         let mut queues = self.queues.borrow_mut();
         if queues.inflight_ids.contains(&id) {
+            self.streaming_remaining.set(None);
             Err(SendPacketError::PacketIdInUse(id))
         } else {
             match self.io.encode(Encoded::Publish(pkt, payload), &self.codec) {
@@ -545,7 +553,10 @@ impl MqttShared {
                     queues.inflight_ids.insert(id);
                     Ok(())
                 }
-                Err(e) => Err(SendPacketError::Encode(e)),
+                Err(e) => {
+                    self.streaming_remaining.set(None);
+                    Err(SendPacketError::Encode(e))
+                }
             }
         }
     }
